@@ -711,8 +711,18 @@ void h_run(void) {
   simk_set_capacity(cap);
   sim_set_quiet_ns(60 * 5000000ull);
   sim_hook_context_switch = on_switch;
+  /* the soft descriptor limit at start-up may be lower than the hard one (the process raises it later), and the
+   * low descriptor numbers may be taken: the scenario's descriptors then sit above the initial soft limit */
+  const int soft = wl_pct(35) ? wl_int(8, 24) : 64;
+  const int taken = soft < 64 ? wl_int(0, 8) : 0;
+  simk_set_soft_fd_limit(soft);
   sim_fiber_mode();
   fiber_manager_init(c.threads);
+  simk_set_soft_fd_limit(64);
+  for (int k = 0; k < taken; k++) {
+    int dummy[2];
+    if (pipe(dummy)) sim_violation("C08-setup", "pipe");
+  }
   switch (scenario) {
     case SC_STREAM: run_stream(c); break;
     case SC_ACCEPT: run_accept(c); break;
